@@ -49,6 +49,23 @@ SPECS = [
     ("ITERATION_READ_BYTES_PERIOD", "src/config.rs", r"const ITERATION_READ_BYTES_PERIOD: u64 = ([^;]+);"),
     ("LEVEL_MAX_BYTES_MULTIPLIER", "src/versioning/version.rs", r"while level > 1 \{\s*result \*= ([^;]+);"),
 ]
+# string constants of src/file_names.rs (emitted as lists of code points): the names the database
+# gives its files and the literals the parser compares with. Format side and parse side are
+# extracted separately: a theorem (by decide) needs them to fit together.
+STR_SPECS = [
+    ("FN_LOCK_FILE", "src/file_names.rs", r'const LOCK_FILE: &str = "([^"]*)";'),
+    ("FN_CURRENT_FILE", "src/file_names.rs", r'const CURRENT_FILE_NAME: &str = "([^"]*)";'),
+    ("FN_WAL_EXT", "src/file_names.rs", r'const WAL_EXT: &str = "([^"]*)";'),
+    ("FN_TABLE_EXT", "src/file_names.rs", r'const TABLE_EXT: &str = "([^"]*)";'),
+    ("FN_MANIFEST_EXT", "src/file_names.rs", r'const MANIFEST_FILE_EXT: &str = "([^"]*)";'),
+    ("FN_TEMP_EXT", "src/file_names.rs", r'const TEMP_FILE_EXT: &str = "([^"]*)";'),
+    ("FN_WAL_FMT_PREFIX", "src/file_names.rs", r'fn get_wal_file_path.*?format!\("([^"{]*)\{wal_number\}"\)'),
+    ("FN_MANIFEST_FMT_PREFIX", "src/file_names.rs", r'fn get_manifest_file_path.*?format!\("([^"{]*)\{manifest_number\}"\)'),
+    ("FN_WAL_PARSE_PREFIX", "src/file_names.rs", r'if file_extension == WAL_EXT \{\s*let file_number: u64 = FileNameHandler::parse_file_number\(file_stem, "([^"]*)"\)'),
+    ("FN_MANIFEST_PARSE_PREFIX", "src/file_names.rs", r'if file_extension == MANIFEST_FILE_EXT \{\s*let file_number: u64 = FileNameHandler::parse_file_number\(file_stem, "([^"]*)"\)'),
+    ("FN_TABLE_PARSE_PREFIX", "src/file_names.rs", r'if file_extension == TABLE_EXT \{\s*let file_number: u64 = FileNameHandler::parse_file_number\(file_stem, "([^"]*)"\)'),
+    ("FN_TEMP_PARSE_PREFIX", "src/file_names.rs", r'if file_extension == TEMP_FILE_EXT \{\s*let file_number: u64 = FileNameHandler::parse_file_number\(file_stem, "([^"]*)"\)'),
+]
 # names used inside right-hand sides
 ALIASES = {"starting_multiple_bytes": "STARTING_MULTIPLE_BYTES"}
 
@@ -94,6 +111,18 @@ def main():
             missing.append((name, f + ": " + str(e))); continue
         env[name] = v
         lines.append(f"/-- `{f}` -/\ndef {name} : Nat := {v}")
+    for name, f, rx in STR_SPECS:
+        p = os.path.join(REPO, f)
+        try:
+            src = cache.setdefault(p, open(p).read())
+        except OSError:
+            missing.append((name, f)); continue
+        m = re.search(rx, src, re.S)
+        if not m or "\\" in m.group(1):
+            missing.append((name, f)); continue
+        cps = [ord(c) for c in m.group(1)]
+        env[name] = '"' + m.group(1) + '"'
+        lines.append(f"/-- `{f}`: \"{m.group(1)}\" as code points -/\ndef {name} : List Nat := [" + ", ".join(map(str, cps)) + "]")
     body = ("-- GENERATED by tools/extract_constants.py from the current /repo sources. Do not edit.\n"
             "namespace Rain.Gen\n\n" + "\n\n".join(lines) + "\n\nend Rain.Gen\n")
     if missing:
